@@ -1,6 +1,6 @@
 (* C12 property theorems. Nothing but statements closed by `exact lemma` and Print Assumptions. *)
 From Coq Require Import ZArith NArith List Bool.
-From OG Require Import C12.Model C12.Proofs C12.ProofsParse C12.ProofsSet C12.ProofsLex C12.ProofsLexMain C12.Chunk C12.ChunkProofs C12.Regroup C12.Gen_Tokens C12.Inst.
+From OG Require Import C12.Model C12.Proofs C12.ProofsParse C12.ProofsSet C12.ProofsLex C12.ProofsLexMain C12.Chunk C12.ChunkProofs C12.Regroup C12.Stmt C12.StmtProofs C12.StmtCorr C12.Gen_Tokens C12.Inst.
 Import ListNotations.
 Open Scope N_scope.
 
@@ -144,6 +144,55 @@ Example C12_ex_regroup_roundtrip :
   option_map strip (Inst.parse (Inst.scan (print_text_v true true (fixp Inst.prec ex_and_or)))) = Some ex_and_or /\
   option_map strip (Inst.parse (Inst.scan (print_text_v true true (fixp Inst.prec ex_unary_minus)))) = Some ex_unary_minus.
 Proof. split; vm_compute; reflexivity. Qed.
+
+(* STATEMENTS.  The model of the HAND-WRITTEN statement parser the storage node uses (parseSelectStatement and its parts,
+   Stmt.v) reads the token-level print of every canonical statement back as that statement: select list with aliases and
+   regex fields, measurement sources in every db.rp.name form, regex sources, sub-queries to ANY depth with alias, WHERE,
+   GROUP BY (expressions, time(), regexes), fill, ORDER BY, LIMIT/OFFSET/SLIMIT/SOFFSET, TZ - for all precedence tables,
+   operator maps, keyword lists and every injective assignment of token codes to the statement keywords. *)
+Theorem C12_parse_source_roundtrip : forall prec isop kws (K : kwid -> N) nr dr,
+  (forall a b, K a = K b -> a = b) ->
+  forall src f, canon_source prec isop kws nr dr src = true -> (need_src src <= f)%nat ->
+  exists R', parse_source prec isop K f (source_toks K nr dr src) = Some (src, R') /\ skip_ws R' = [].
+Proof. exact parse_source_roundtrip. Qed.
+Print Assumptions C12_parse_source_roundtrip.
+
+(* hybridqp.ParseFields(Fields.String()): SELECT <fields> FROM mock through the same parser *)
+Theorem C12_parse_fields_roundtrip : forall prec isop kws (K : kwid -> N) nr dr,
+  (forall a b, K a = K b -> a = b) ->
+  forall fields f, fields <> [] -> forallb (canon_field prec isop kws nr dr) fields = true -> (length fields + 3 <= f)%nat ->
+  parse_stmt prec isop K f (TWs :: sep_toks (field_toks K nr dr) fields ++ [TWs; TKeyword (K KFrom); TWs; TIdent StmtProofs.mock]) =
+  Some (Stmt fields [SMst [] [] StmtProofs.mock None] None [] FNull [] 0 0 0 0 None, []).
+Proof. exact parse_fields_roundtrip. Qed.
+Print Assumptions C12_parse_fields_roundtrip.
+
+(* ParseSortFields(SortFields.String()) *)
+Theorem C12_sort_fields_roundtrip : forall (K : kwid -> N), (forall a b, K a = K b -> a = b) ->
+  forall sl R, sl <> [] -> hd_is_comma (skip_ws R) = false ->
+  parse_sort_fields K (length sl) (sep_toks (sort_toks K) sl ++ R) = Some (sl, skip_ws R).
+Proof. exact sort_fields_roundtrip. Qed.
+Print Assumptions C12_sort_fields_roundtrip.
+
+(* the live keyword table gives the statement keywords pairwise different token codes *)
+Theorem C12_stmt_keywords_repo : forall a b, KI a = KI b -> a = b.
+Proof. intros a b H. destruct a, b; try reflexivity; vm_compute in H; discriminate H. Qed.
+Print Assumptions C12_stmt_keywords_repo.
+
+(* non-vacuity: a statement with every clause and a nested aliased sub-query is canonical and parses back *)
+Definition ex_inner : stmt :=
+  Stmt [(ECall [109;101;97;110] [EVar [118] DUnknown], [97])] [SMst [100;98] [] [109] None; SMst [] [114;112] [] (Some [94;99])]
+       (Some (EBin OGt (EVar [118] DUnknown) (ENum false 1 [5]))) [ECall [116;105;109;101] [EDur 60000000000]; ERegex [104]]
+       FPrev [] 0 0 0 0 None.
+Definition ex_stmt_src : source :=
+  SSub (Stmt [(ERegex [97], []); (EBin OMul (EVar [97] DUnknown) (EInt 2), [120;32;121])]
+             [SSub ex_inner [116;49]; SMst [100;98] [114;112] [109;32;109] None]
+             (Some (EBin OEq (EVar [104] DUnknown) (EStr [105;116;39;115]))) [EVar [104] DUnknown] (FNumber (ENum true 1 [5]))
+             [([116;105;109;101], false); ([118], true)] 10 2 3 1 (Some [85;84;67])) [].
+Example C12_ex_stmt_canonical : canon_source Inst.prec Inst.isop keywords true true ex_stmt_src = true.
+Proof. vm_compute. reflexivity. Qed.
+Example C12_ex_stmt_roundtrip :
+  parse_source Inst.prec Inst.isop KI 20 (source_toks KI true true ex_stmt_src) = Some (ex_stmt_src, []).
+Proof. vm_compute. reflexivity. Qed.
 
 (* RESULT CHUNKS: the generated codec (ChunkImpl / ColumnImpl / Bitmap / ChunkTags / floatTuple Marshal, Unmarshal, Size
    over lib/codec) modelled at byte level.  For every chunk whose parts fit the wire format (counts below 2^32, name below
